@@ -3,7 +3,7 @@ import posixpath
 
 from vf import sym, tree
 from vf.engine import Cond, specialise
-from vf.modelfs import ModelFS, Node, ROOT, mk, digest_for
+from vf.modelfs import ModelFS, Node, ROOT, mk, digest_for, crash_origin
 from vf.scen import make_cond, partitions
 from vf.props.c05 import Swap
 
@@ -182,7 +182,7 @@ def run_cli(c):
         except OSError as e:
             return 'oserror:%s' % e.errno
         except INTERNAL as e:
-            return 'crash:' + type(e).__name__
+            return crash_origin(e)
         except SystemExit as e:
             return 'exit:%s' % e.code
 
@@ -221,6 +221,11 @@ def conditions(tier):
                       'a genuine OSError; no internal error escapes',
                 bounds='one odd feature per tree; profile default/ebuild/old-ebuild; '
                        'keep-going on/off'))
+    # "any UTF-8 Manifest text": the field-level parser conditions of C09 that let nothing
+    # but the library's syntax error escape are part of this claim too (same functions, same
+    # bounds; a failure is reported under the property whose check is running)
+    from vf.props import c09
+    cs += c09.size_field_conditions(tier)
     return cs
 
 
